@@ -6,17 +6,17 @@ TB = ("Trusted: Lean 4.33 kernel; axioms propext/Classical.choice/Quot.sound onl
       "(lean/Clover/Model) is tied to /repo by the differential correspondence run of the same check (Go harness + Lean driver); "
       "bbolt, badger, msgpack, encoding/json, regexp, orderedcode, reflect are modelled or parameters, not verified.")
 P = {
- "C01": ("proof", "Three-way differential: random histories executed on the real DB (bbolt, badger), on the executable Lean model and on the abstract Lean spec (filter/sort/window; no indexes). Theorems so far: store/transaction laws, planner soundness and scan exactness on transcriptions (being retargeted to the model definitions). The refinement theorem model=spec is checked at run time on every dump (inv flag) until it is proved.", "Lean model + spec, refinement; correspondence by differential histories"),
- "C02": ("proof", "planner_sound / scan exactness theorems (Lean) + twin collections differing only in indexes run on the real DB and compared with the index-free Lean spec and with each other.", "Lean proof of planner soundness and scan exactness; twin-collection correspondence"),
- "C03": ("proof", "Bulk update/delete on collections of size 0..5000 on both backends: updater invocations and raw key dumps compared with the Lean model; spec = replace exactly FindAll(q).", "Lean model/spec refinement; differential bulk histories with raw key dumps"),
- "C04": ("proof", "Theorem failed_op_no_trace proved for every operation of the model, every state and every fault schedule (Lean); fault enumeration over every store call of every operation on the real DB compares outcome and raw dump with the model.", "Lean theorem over all fault schedules; fault-enumeration correspondence"),
- "C06": ("proof", "Inv = 'the store is the rendering of an abstract state' evaluated after every operation on the model (Lean render) and raw key dumps of the real DB compared with the model's keys after every operation.", "Lean representation invariant; raw key dump correspondence"),
+ "C01": ("proof", 'Lean theorems on the executable model: refine_step / refine_history (every operation kind refines the abstract specification call by call after any history, for queries served by a full scan - in particular all collections without indexes), findAll_exact (ANY index set and plan on the key domain: a permutation of filter(sat) over the live documents), findAll_returns_nothing_else (any plan, no domain hypothesis). Tie: three-way differential of random histories on the real DB (bbolt, badger), the model and the specification. Run time only: order of sorted/windowed answers served from an index (tie classes), values outside the key domain.', 'Lean refinement proof (model refines index-free specification) + differential histories'),
+ "C02": ("proof", "Lean: planner_sound, index_block_shape (a store representing an abstract state has the block shape the scan theorems need), index_candidates_complete, findAll_index_transparent and count_index_transparent (whatever the index set and the plan chosen, FindAll returns a permutation of / Count returns the index-free specification's answer, on the key domain), bulk_write_any_plan. Tie: systematic cells (leaf form x operand kind x wrapper x sort) and random twin collections differing only in their indexes on the real DB, compared with the index-free spec and pairwise. Run time only: sort elision order, bulk-write selections through index plans.", 'Lean proof of index transparency on the model; twin-collection correspondence'),
+ "C03": ("proof", 'Lean: apply_phase_exact (for every updater, size and index set, any selection of live documents is rewritten exactly once each on its pre-call value, nothing else touched), update_exact / delete_exact (refinement for full-scan plans), selection_is_live_any_plan, dropCollection_removes_all. Tie: bulk histories on collections of size 0..1100 quick / 5000 thorough on both backends incl. rewrites that take documents out of their own selection; updater invocations and raw key dumps vs the model.', 'Lean refinement proof of the bulk apply phase; differential bulk histories with raw key dumps'),
+ "C04": ("proof", "Lean: failed_op_no_trace and fault_reported for every operation, state and fault schedule; run_unfired (a run in which no fault fired is the fault-free run); sentinel errors equal the specification's (refine_step). Tie: fault enumeration over every store call of every operation kind (incl. import/export) on the real DB: outcome, raw dump, follow-up write and store-call trace vs the model; after a broken correspondence the search continues with the property's own oracle.", 'Lean theorem over all fault schedules; fault-enumeration correspondence'),
+ "C06": ("proof", 'Lean: inv_step (every operation in the supported domain, every handle state, EVERY fault schedule preserves the representation invariant) and inv_reachable (every history from the empty database), index_entries_exact, size_is_number_of_documents, documents_exact, no_residue_of_missing_collection. Tie: raw key dumps of the real DB vs the model after every operation, the Lean-evaluated inv flag, and a direct invariant oracle on the real store.', 'Lean representation invariant proved by induction over histories; raw key dump correspondence'),
  "C08": ("proof", "run_window theorem (skip/limit node = drop/take); sorted answers of the real DB checked position by position against the tie classes of the Lean spec's ordered sequence.", "Lean proof of window law; class-sequence correspondence"),
- "C09": ("proof", "Derived reads (Count/Exists/FindFirst/ForEach/FindById) compared with FindAll on the real DB (self-relative) and with the Lean model/spec after every write.", "Lean model/spec; self-relative differential"),
+ "C09": ("proof", 'Lean: count_is_length, exists_iff_nonempty, findFirst_is_head, forEach_is_prefix (incl. a consumer stopping after n documents) for full-scan plans, count_is_length_any_plan (any plan, key domain), findById_iff_live, reads_do_not_alter_db (any fault schedule). Tie: derived reads compared with FindAll on the real DB (self-relative) and with model/spec after every write.', 'Lean refinement proofs of the derived reads; self-relative differential'),
  "C10": ("proof", "c10_preorder and c10_key_order proved in Lean for all values (unbounded nesting): total preorder by exact value; index key bytes followed by any ids sort exactly as the values on the key domain. Correspondence: Compare and OrderedCode of the real code vs the Lean definitions on all pairs of a boundary-rich pool.", "Lean proof by mutual induction; byte-exact key correspondence"),
- "C12": ("proof", "Histories of inserts with generated/supplied/duplicate/malformed ids, saves, replacements and _id-rewriting updates; results and raw dumps vs Lean model and spec (documents keyed by id).", "Lean model/spec; differential histories"),
- "C13": ("proof", "Key-space lemmas (Lean): prefixes of ';'-free collection names never overlap. Catalog histories over prefix-related/unicode names vs model/spec with raw dumps.", "Lean key-space lemmas; differential histories"),
- "C14": ("proof", "Key-space lemmas (Lean): the terminated index prefix selects exactly its (collection, field) entries incl. x/xy and n/n.a. Index create/drop histories vs model/spec with raw dumps.", "Lean key-space lemmas; differential histories"),
+ "C12": ("proof", 'Lean: insert_exact (Insert refines the specification: duplicate / malformed ids at any batch position rejected with nothing changed, supplied ids kept, fresh ids assigned), updateById_exact (any updater; ReplaceById, Save), findById_returns_own_id, valid_id_wellformed, key_determines_id. Tie: histories of inserts with generated/supplied (several valid spellings)/duplicate/malformed ids, saves, replacements and _id-rewriting updates vs model and spec.', 'Lean refinement proofs of the id-handling operations; differential histories'),
+ "C13": ("proof", "Lean: createCollection_exact, dropCollection_exact, listCollections_exact (each refines the specification's catalog), collection_frame, bulk_write_frame, key-space lemmas for ';'-free names incl. prefix-related and unicode ones. Tie: catalog histories vs model/spec with raw dumps.", 'Lean refinement proofs of the catalog operations + key-space lemmas; differential histories'),
+ "C14": ("proof", 'Lean: createIndex_exact, dropIndex_exact (at any point of a history; entries of other indexes untouched incl. x/xy and n/n.a), hasIndex_exact, listIndexes_exact, index_prefix_selects_own_entries. Tie: index create/drop histories vs model/spec with raw dumps.', 'Lean refinement proofs of the index catalog operations + key-space lemmas; differential histories'),
  "C05": ("proof", "Facts regenerated from the source (every transaction-opening function begins exactly one transaction, defers Rollback, commits at most once; bbolt opened with nil options) decided in Lean; model theorem: the committed state is only replaced by a completed body whose commit succeeded. Close/reopen after every write and SIGKILL of a child process at random instants (bbolt, badger on disk): the reopened store must be the model's state after j or j+1 operations and pass the invariant oracle. Partial: power loss and backend-internal recovery are outside the theorem.", "Lean protocol theorem + regenerated transaction-shape facts; kill/reopen correspondence"),
  "C07": ("proof", "Linearizability of the lock/snapshot protocol proved in Lean for any number of threads and operations (instantiated with the model's operations); regenerated facts: no shared mutable state in the handle, no mutable globals, no builder writes through its receiver. Race-detector build running tagged batches / bulk updates / counters from 2-8 goroutines with perturbed scheduling. Partial: Go scheduler/memory model and badger's conflict detection are outside the theorem.", "Lean linearizability theorem + regenerated structural facts; -race concurrent workload"),
  "C11": ("proof", "decode_encode proved in Lean for every document at any nesting depth (time wrapping/unwrapping recursive over maps and slices); msgpack/gob abstracted as a faithful serialiser, validated by round trips of the full value grammar through Insert/Save/Update and FindById/FindAll before and after reopen on three backends.", "Lean proof by mutual structural induction; round-trip correspondence"),
